@@ -222,19 +222,19 @@ def observe(case, scratch):
     recheck = drive.mod("recheck")
     reach = env.Reach()
     reach.start({
-        "Checker.iter_hashes": recheck.Checker.iter_hashes,
-        "Checker.find_root": recheck.Checker.find_root,
-        "Checker.check_paths": recheck.Checker.check_paths,
-        "Checker.walk_file_tree": recheck.Checker.walk_file_tree,
-        "FeedChecker.iter_pieces": recheck.FeedChecker.iter_pieces,
-        "FeedChecker.extract": recheck.FeedChecker.extract,
-        "FeedChecker._gen_padding": recheck.FeedChecker._gen_padding,
-        "FeedChecker.__next__": recheck.FeedChecker.__next__,
-        "HashChecker.__next__": recheck.HashChecker.__next__,
-        "HashChecker.next_file": recheck.HashChecker.next_file,
-        "HashChecker.process_current": recheck.HashChecker.process_current,
-        "HashChecker.advance": recheck.HashChecker.advance,
-        "HashChecker.Padder.__next__": recheck.HashChecker.Padder.__next__,
+        "Checker.iter_hashes": env.Tolerant(recheck).Checker.iter_hashes,
+        "Checker.find_root": env.Tolerant(recheck).Checker.find_root,
+        "Checker.check_paths": env.Tolerant(recheck).Checker.check_paths,
+        "Checker.walk_file_tree": env.Tolerant(recheck).Checker.walk_file_tree,
+        "FeedChecker.iter_pieces": env.Tolerant(recheck).FeedChecker.iter_pieces,
+        "FeedChecker.extract": env.Tolerant(recheck).FeedChecker.extract,
+        "FeedChecker._gen_padding": env.Tolerant(recheck).FeedChecker._gen_padding,
+        "FeedChecker.__next__": env.Tolerant(recheck).FeedChecker.__next__,
+        "HashChecker.__next__": env.Tolerant(recheck).HashChecker.__next__,
+        "HashChecker.next_file": env.Tolerant(recheck).HashChecker.next_file,
+        "HashChecker.process_current": env.Tolerant(recheck).HashChecker.process_current,
+        "HashChecker.advance": env.Tolerant(recheck).HashChecker.advance,
+        "HashChecker.Padder.__next__": env.Tolerant(recheck).HashChecker.Padder.__next__,
     })
     raw, mpath = make_metafile(case, scratch, root)
     obs = {"reach": None, "create_error": None}
